@@ -6,7 +6,7 @@ RULE = ("family proxy: ProxyHandler between a client on SimTcp and a scripted up
         "paths with unreserved, percent-encoded reserved, space, CR/LF and non-ASCII characters x query strings (incl. fragments) x header "
         "sets (duplicates, pre-existing X-Forwarded-For / X-Real-IP, case variants) x bodies (a few bytes, and single arrivals of 65 KiB..100 KB) x the number of body segments that arrive "
         "before the upstream connection completes; non-trivial = distinct case")
-ASSUMPTIONS = ["request targets are in the C01 class or tabulated by QUrl", "the client's address is the SimTcp peer address 10.1.2.3"]
+ASSUMPTIONS = ["client addresses are given in the form QHostAddress::toString() prints them", "request targets are in the C01 class or tabulated by QUrl", "the client's address is the SimTcp peer address 10.1.2.3"]
 TRUSTED = ["the upstream server is a QTcpServer in the harness; the kernel's loopback TCP carries the bytes"]
 
 PATHS = [b"/", b"/api/items", b"/a%20b", b"/x%0d%0aInjected:%201", b"/%3f%23", b"/caf%C3%A9", b"/a/b/c.txt", b"/%25%32%30", b"/sp%20ace/%2F/x", b"/~u/-_."]
@@ -45,7 +45,11 @@ def cases(tier, seed, ctx=None):
             segs = []
         k = rng.range(0, len(segs))
         resp = [[0, b"HTTP/1.1 200 OK\r\nContent-Length: 2\r\n\r\nok"], [1]]
-        yield ("proxy", [head, segs, k, resp, 0, G.env_for(ver, tab, [raw]), [12, raw, body if declared else b""]], "request")
+        case = [head, segs, k, resp, 0, G.env_for(ver, tab, [raw]), [12, raw, body if declared else b""]]
+        if rng.chance(1, 4):
+            # clients with other kinds of addresses: the proxy reports the address as Qt prints it
+            case.append(rng.choice([b"::1", b"2001:db8::1", b"fe80::1", b"192.168.0.7", b"::ffff:1.2.3.4"]))
+        yield ("proxy", case, "request")
     # large bodies: single arrivals above any plausible internal block size (16 KiB, 64 KiB), before and after the connect
     nl = 6 if tier == "quick" else 40
     ver, tab = G.oracle(ctx, [b"/up"])
